@@ -11,6 +11,7 @@ mod c08;
 mod c09;
 mod c19;
 mod pipe;
+mod readers;
 mod scan;
 mod util;
 
@@ -52,6 +53,8 @@ fn main() {
                 "C03" => scan::record_c03(&mut rec, seed, thorough),
                 "C08" => c08::record(&mut rec, seed, thorough),
                 "C09" => c09::record_c09(&mut rec, seed, thorough),
+                "C14" => readers::record_c14(&mut rec, seed, thorough),
+                "C15" => readers::record_c15(&mut rec, seed, thorough),
                 "C10" => c09::record_c10(&mut rec, seed, thorough),
                 _ => {
                     eprintln!("unknown property {}", prop);
